@@ -225,7 +225,8 @@ UnOp(op, a) ==
     ELSE \* not
          LET t == IF a[1] = "I" THEN "I" ELSE "L"
              ia == Conv(a, t)
-         IN IF Bad(ia) THEN ia ELSE <<t, (0 - ia[2]) - 1, 0>>
+         IN IF Bad(ia) THEN ia
+            ELSE <<t, IF ia[2] >= 0 THEN (0 - ia[2]) - 1 ELSE 0 - (ia[2] + 1), 0>>     \* -x-1 without overflow
 
 \* observational equality of two values: INTEGER and LONG cannot be told apart by any output
 SameObs(a, b) == \/ a = b
